@@ -384,6 +384,30 @@ fn main() {
                 cx.mode = mode.clone();
                 cx.pad = *pad;
             }
+            Stmt::MkDirs => {
+                // like `mkdir -p`: one mkdir per missing component (each a
+                // scheduling point of class fsw)
+                if let Some(i) = cx.arg1.rfind('/') {
+                    let dir = cx.arg1[..i].to_string();
+                    let mut cur = String::new();
+                    for comp in dir.split('/') {
+                        if comp.is_empty() {
+                            cur.push('/');
+                            continue;
+                        }
+                        if !cur.ends_with('/') && !cur.is_empty() {
+                            cur.push('/');
+                        }
+                        cur.push_str(comp);
+                        if std::fs::symlink_metadata(&cur).is_err() {
+                            let c = cstr(&cur);
+                            unsafe {
+                                libc::mkdir(c.as_ptr(), 0o755);
+                            }
+                        }
+                    }
+                }
+            }
             Stmt::KillSelf(sig) => {
                 let bytes = assemble(&cx.lines, cx.pad);
                 cx.emit_output(&bytes[..bytes.len() / 2]);
